@@ -612,7 +612,7 @@ _WRITE_RE = re.compile(r'[wax+]')
 
 def _sim_open(file, mode='r', buffering=-1, encoding=None, errors=None, newline=None, closefd=True, opener=None):
     p = cur()
-    if p is None or p.atomic or isinstance(file, int) or opener is not None:
+    if p is None or p.atomic or isinstance(file, int) or opener is not None or _incidental(file):
         return _real['open'](file, mode, buffering, encoding, errors, newline, closefd, opener)
     k = p.kernel
     path = os.fspath(file)
@@ -1115,12 +1115,24 @@ def _sim_cpu_count():
 # --------------------------------------------------------------------------------------
 # shims
 # --------------------------------------------------------------------------------------
+def _incidental(path):
+    """file accesses the interpreter makes on its own behalf (source lines for tracebacks and warnings, byte code):
+    never part of the system under test, and dependent on cache state the simulation does not control"""
+    try:
+        s = os.fspath(path)
+    except TypeError:
+        return False
+    if isinstance(s, bytes):
+        s = s.decode('utf-8', 'replace')
+    return s.endswith(('.py', '.pyc', '.pyi', '.so', '.pth')) or '/__pycache__/' in s
+
+
 def _wrap_fs(name, kind, path_args=1):
     real = _real[name]
 
     def shim(*a, **kw):
         p = cur()
-        if p is not None and not p.atomic:
+        if p is not None and not p.atomic and not (a and _incidental(a[0])):
             k = p.kernel
             try:
                 detail = ' '.join(k.norm_path(x) for x in a[:path_args])
